@@ -1019,6 +1019,21 @@ def list_tampering(t):
                    if str(u[2]).split("@")[0].rsplit("::", 1)[-1] in _REORDERING})
 
 
+_GROWTH = ("extend", "extend_from_slice", "append", "push", "reserve", "reserve_exact", "shrink_to_fit")
+
+
+def inplace_changes(t):
+    """kinds of the in-place changes recorded in the term t other than appending entries (an entry assigned in straight-line code `set`, a field
+    written, any `&mut self` method other than push/extend/append ..)"""
+    out = set()
+    for u in find_terms(t, lambda u_: u_[0] == "upd"):
+        k = str(u[2]).split("@")[0]
+        k = k.split(":")[0] if k.startswith(("set:", "push:", "field:")) else k.rsplit("::", 1)[-1]
+        if k not in _GROWTH:
+            out.add(k)
+    return sorted(out)
+
+
 def strip_upd(t):
     """drop `upd` wrappers of the kinds listed in _STRIPPABLE (and field writes) for structural comparison"""
     if isinstance(t, tuple):
